@@ -6,7 +6,9 @@ params:
             "ftimeout": f_timeout(input future, t), inputs completed by env threads
   jobs      list of dicts {T: timeout ticks, S: submit time, D: duration (0 never), C: cancellable,
                            percall: bool, exc: bool, ucancel: time or None,
-                           SD: ticks the delegate's own submit() takes (manual flavour)}
+                           SD: ticks the delegate's own submit() takes (manual flavour),
+                           CD: ticks the delegate future's cancel() takes before it refuses (manual flavour),
+                           resub: a done-callback of the expired future submits to the same executor}
 The creation of the future that submit_timeout / f_timeout returns is observed through the creation of its lock
 (event FutureCreated): its deadline counts from there.
   horizon   ticks
@@ -29,7 +31,8 @@ def build(p):
         from concurrent.futures import Future
         vals = {}
         if flavour == "manual":
-            plan = {j + 1: {"dur": jb["D"], "cancellable": jb.get("C", True), "submit_delay": jb.get("SD", 0)}
+            plan = {j + 1: {"dur": jb["D"], "cancellable": jb.get("C", True), "submit_delay": jb.get("SD", 0),
+                            "cancel_dur": jb.get("CD", 0)}
                     for j, jb in enumerate(jobs)}
             base = ManualExecutor(plan)
             ex = TimeoutExecutor(base, default_t / 1000.0, name="t")
@@ -104,6 +107,12 @@ def build(p):
                 H.tap_cancel(fut, j, "outer")
                 E.SCHED.track(j, fut)
                 E.emit("SubmitRet", f=j)
+                if jb.get("resub"):
+                    # the "try again on timeout" pattern: a done-callback submits to the same executor
+                    def again(f_, j=j):
+                        if f_.cancelled():
+                            ex.submit(H.Scripted(90 + j, [("V", Val(90 + j))]))
+                    fut.add_done_callback(again)
             futs[j] = fut
             uc = jb.get("ucancel")
             if uc is not None:
